@@ -76,6 +76,9 @@ def signature(ob, res):
 
 def replay(data):
     from vlib import xh
+    if data.get("func") == "ob_fs_conformance":
+        from harness import fsconf
+        return fsconf.replay(data)
     return xh.replay("xh_C19", data)
 
 
